@@ -164,6 +164,14 @@ func (x *Exec) assertion(c *Term, msg string) {
 	case Sat:
 		v := Violation{Kind: "assert", Msg: msg, Harness: x.eng.harnessName, Model: x.buildModel(m), Trace: append([]Dec{}, x.trace...), Where: x.where()}
 		x.res.Violations = append(x.res.Violations, v)
+		if x.eng.knownLabels[msg] {
+			// listed finding: keep exploring the inputs on which the assertion holds
+			if r2, _ := x.check(c, x.eng.cfg.FeasTimeoutMs, nil); r2 == Unsat {
+				x.end("violation", msg)
+			}
+			x.assertPC(c)
+			return
+		}
 		x.end("violation", msg)
 	default:
 		x.res.Unknowns = append(x.res.Unknowns, "assertion query unknown: "+msg)
